@@ -7,7 +7,7 @@ H=$(echo "$REPO" | md5sum | cut -c1-10)
 D=$VERIF/build/replay/$H; mkdir -p $D/src
 sed "s#@REPO@#$REPO#" $HERE/Cargo.toml.tmpl > $D/Cargo.toml
 cp $HERE/src/*.rs $D/src/; cp /repo/Cargo.lock $D/Cargo.lock 2>/dev/null
-export CARGO_TARGET_DIR=$VERIF/build/replay_target CARGO_NET_OFFLINE=true
+export CARGO_TARGET_DIR=$VERIF/build/replay_target CARGO_NET_OFFLINE=true CARGO_INCREMENTAL=0
 rc=0
 ( cd $D && cargo run --offline -q -- $PID "$REPO" 2>$D/err_main.log ) || rc=$?
 case $PID in C02|C03|C04|C05|C06|C07|C08|C09|C11|C12|C13|C14|C15|C16)
